@@ -212,12 +212,15 @@ class Runner:
         shutil.rmtree(self.dir, ignore_errors=True)
         os.makedirs(self.dir, exist_ok=True)
         self.n = 0
+        self.call_timeout = None   # set while shrinking: a hanging candidate must not stall the check
 
     def cleanup(self):
         shutil.rmtree(self.dir, ignore_errors=True)
 
     def harness(self, case_lines, timeout=1800, chunk=None):
         """Run the real code on the cases (16-way parallel by chunks)."""
+        if self.call_timeout:
+            timeout = min(timeout, self.call_timeout)
         self.n += 1
         if not case_lines:
             return "", {}
@@ -246,6 +249,8 @@ class Runner:
 
     def driver(self, impl_text, timeout=1800):
         """Replay on the Lean model (parallel by splitting at case boundaries)."""
+        if self.call_timeout:
+            timeout = min(timeout, self.call_timeout)
         if not impl_text:
             return "", {}
         blocks = re.split(r"(?m)^(?=case )", impl_text)
